@@ -102,3 +102,88 @@ package stream
 // Deduplicate: drops an element exactly when it equals the previous one
 //@ func Deduplicate$1$1(v)
 //@   ensures at-most-one-output: len(result0) <= 1
+
+// ---------------------------------------------------------------------------
+//@ property C46
+
+// ---- Balance: each element goes to exactly one branch that asked for it -----------------
+//@ spec func bal_wf(a *balanceHubActor[T]) bool = a.n > 0 && len(a.slots) == a.n && len(a.demand) == a.n && len(a.slotSubIDs) == a.n && 0 <= a.nextSlot && a.nextSlot < a.n
+
+//@ ghost local bal_routed int
+//@ func (*balanceHubActor).Receive(a, rctx)
+//@   requires bal_wf(a) && rctx != nil
+//@   requires is(rctx.message, *slotDemand) ==> 0 <= rctx.message.(*slotDemand).slot && rctx.message.(*slotDemand).slot < a.n
+//@   requires is(rctx.message, *slotCancel) ==> 0 <= rctx.message.(*slotCancel).slot && rctx.message.(*slotCancel).slot < a.n
+//@   preserve balanceHubActor.slots, balanceHubActor.demand, balanceHubActor.slotSubIDs, balanceHubActor.n, balanceHubActor.nextSlot, balanceHubActor.seqNo
+//@   ghost entry bal_routed = 0
+//@   loop 2 invariant scanning-round-robin: 0 <= i && i <= a.n && chosen == -1 && bal_wf(a) && a.slots == old(a.slots) && a.demand == old(a.demand) && a.nextSlot == old(a.nextSlot) && forall j int :: 0 <= j && j < i ==> !(a.slots[(a.nextSlot + j) % a.n] != nil && a.demand[(a.nextSlot + j) % a.n] > 0)
+//@   at call 1 of (*ReceiveContext).Tell assert announces-the-hub: is(arg2, *hubReady)
+//@   at call 3 of (*ReceiveContext).Tell assert completion-to-a-live-branch: is(arg2, *streamComplete) && arg1 != nil
+//@   at call 4 of (*ReceiveContext).Tell assert error-to-a-live-branch: is(arg2, *streamError) && arg1 != nil
+//@   at call 5 of (*ReceiveContext).Tell assert cancels-upstream-when-every-branch-left: is(arg2, *streamCancel) && a.cancelled >= a.n
+//@   at call 2 of (*ReceiveContext).Tell assert routes-to-a-branch-that-asked: 0 <= chosen && chosen < a.n && arg1 == a.slots[chosen] && a.slots[chosen] != nil && a.demand[chosen] > 0 && arg2.(*streamElement).value == msg.value
+//@   at call 2 of (*ReceiveContext).Tell ghost bal_routed = bal_routed + 1
+//@   ensures dropped-only-when-no-branch-asked: is(rctx.message, *streamElement) && bal_routed == 0 ==> forall j int :: 0 <= j && j < a.n ==> !(old(a.slots[(a.nextSlot + j) % a.n]) != nil && old(a.demand[(a.nextSlot + j) % a.n]) > 0)
+//@   ensures never-more-than-one-branch: bal_routed <= 1
+//@ structural mapwriters balanceHubActor.slots: newSharedBalance, newSharedBalance$1, (*sharedBalance).registerSlot, (*balanceHubActor).Receive
+//@ structural mapwriters balanceHubActor.demand: newSharedBalance, newSharedBalance$1, (*sharedBalance).registerSlot, (*balanceHubActor).Receive
+//@ structural mapwriters balanceHubActor.slotSubIDs: newSharedBalance, newSharedBalance$1, (*sharedBalance).registerSlot, (*balanceHubActor).Receive
+//@ structural writers balanceHubActor.n: newSharedBalance, newSharedBalance$1, (*sharedBalance).registerSlot
+//@ structural writers balanceHubActor.nextSlot: (*balanceHubActor).Receive
+//@ structural writers balanceHubActor.seqNo: (*balanceHubActor).Receive
+
+// ---- Broadcast: every live branch gets every element, exactly once --------------------
+//@ spec func bc_wf(a *broadcastHubActor[T]) bool = a.n > 0 && len(a.slots) == a.n && len(a.demand) == a.n && len(a.slotSubIDs) == a.n
+
+//@ ghost local bc_sent int
+//@ func (*broadcastHubActor).Receive(a, rctx)
+//@   requires bc_wf(a) && rctx != nil
+//@   requires is(rctx.message, *slotDemand) ==> 0 <= rctx.message.(*slotDemand).slot && rctx.message.(*slotDemand).slot < a.n
+//@   requires is(rctx.message, *slotCancel) ==> 0 <= rctx.message.(*slotCancel).slot && rctx.message.(*slotCancel).slot < a.n
+//@   preserve broadcastHubActor.slots, broadcastHubActor.demand, broadcastHubActor.slotSubIDs, broadcastHubActor.n, broadcastHubActor.seqNo
+//@   ghost entry bc_sent = 0
+//@   loop 2 invariant one-copy-per-live-branch-so-far: -1 <= rangeindex && rangeindex < len(a.slots) && bc_wf(a) && a.slots == old(a.slots) && a.seqNo == old(a.seqNo) + 1 && bc_sent == live_upto(a, rangeindex + 1) && forall j int :: 0 <= j && j < a.n ==> a.slots[j] == old(a.slots[j])
+//@   at call 1 of (*ReceiveContext).Tell assert announces-the-hub: is(arg2, *hubReady)
+//@   at call 2 of (*ReceiveContext).Tell assert to-this-live-branch: arg1 == a.slots[i] && arg1 != nil
+//@   at call 2 of (*ReceiveContext).Tell assert same-element: arg2.(*streamElement).value == msg.value
+//@   at call 2 of (*ReceiveContext).Tell assert same-sequence-number: arg2.(*streamElement).seqNo == a.seqNo
+//@   at call 2 of (*ReceiveContext).Tell assert branch-subscription: arg2.(*streamElement).subID == a.slotSubIDs[i]
+//@   at call 2 of (*ReceiveContext).Tell ghost bc_sent = bc_sent + 1
+//@   at call 3 of (*ReceiveContext).Tell assert completion-to-a-live-branch: is(arg2, *streamComplete) && arg1 != nil
+//@   at call 4 of (*ReceiveContext).Tell assert error-to-a-live-branch: is(arg2, *streamError) && arg1 != nil
+//@   at call 5 of (*ReceiveContext).Tell assert cancels-upstream-when-every-branch-left: is(arg2, *streamCancel) && a.cancelled >= a.n
+//@   ensures every-live-branch-exactly-once: is(rctx.message, *streamElement) ==> bc_sent == live_upto(a, a.n)
+// number of live (not cancelled) branches among the first k
+//@ spec rec func live_upto(a *broadcastHubActor[T], k int) int = ite(k <= 0, 0, live_upto(a, k-1) + ite(a.slots[k-1] != nil, 1, 0))
+//@ structural mapwriters broadcastHubActor.slots: newSharedBroadcast, newSharedBroadcast$1, (*sharedBroadcast).registerSlot, (*broadcastHubActor).Receive
+//@ structural mapwriters broadcastHubActor.demand: newSharedBroadcast, newSharedBroadcast$1, (*sharedBroadcast).registerSlot, (*broadcastHubActor).Receive
+//@ structural mapwriters broadcastHubActor.slotSubIDs: newSharedBroadcast, newSharedBroadcast$1, (*sharedBroadcast).registerSlot, (*broadcastHubActor).Receive
+//@ structural writers broadcastHubActor.n: newSharedBroadcast, newSharedBroadcast$1, (*sharedBroadcast).registerSlot
+//@ structural writers broadcastHubActor.seqNo: (*broadcastHubActor).Receive
+
+// ---- Partition: each element goes to the branch its function selects -----------------
+//@ spec func pt_wf(a *partitionHubActor[T]) bool = a.n > 0 && len(a.slots) == a.n && len(a.demand) == a.n && len(a.slotSubIDs) == a.n
+
+//@ ghost local pt_sel int
+//@ ghost local pt_sent int
+//@ func (*partitionHubActor).Receive(a, rctx)
+//@   requires pt_wf(a) && rctx != nil
+//@   requires is(rctx.message, *slotDemand) ==> 0 <= rctx.message.(*slotDemand).slot && rctx.message.(*slotDemand).slot < a.n
+//@   requires is(rctx.message, *slotCancel) ==> 0 <= rctx.message.(*slotCancel).slot && rctx.message.(*slotCancel).slot < a.n
+//@   preserve partitionHubActor.slots, partitionHubActor.demand, partitionHubActor.slotSubIDs, partitionHubActor.n, partitionHubActor.seqNo
+//@   ghost entry pt_sent = 0
+//@   at call 1 of dynamic assert selects-on-the-element: arg0 == rctx.message.(*streamElement).value
+//@   at call 1 of dynamic ghost pt_sel = result
+//@   at call 1 of (*ReceiveContext).Tell assert announces-the-hub: is(arg2, *hubReady)
+//@   at call 2 of (*ReceiveContext).Tell assert routes-to-the-selected-branch: 0 <= pt_sel && pt_sel < a.n && arg1 == a.slots[pt_sel] && arg1 != nil && arg2.(*streamElement).value == msg.value && arg2.(*streamElement).subID == a.slotSubIDs[pt_sel]
+//@   at call 2 of (*ReceiveContext).Tell ghost pt_sent = pt_sent + 1
+//@   at call 3 of (*ReceiveContext).Tell assert completion-to-a-live-branch: is(arg2, *streamComplete) && arg1 != nil
+//@   at call 4 of (*ReceiveContext).Tell assert error-to-a-live-branch: is(arg2, *streamError) && arg1 != nil
+//@   at call 5 of (*ReceiveContext).Tell assert cancels-upstream-when-every-branch-left: is(arg2, *streamCancel) && a.cancelled >= a.n
+//@   ensures selected-live-branch-gets-it-exactly-once: is(rctx.message, *streamElement) && 0 <= pt_sel && pt_sel < a.n && old(a.slots[now(pt_sel)]) != nil ==> pt_sent == 1
+//@   ensures never-more-than-one-branch: pt_sent <= 1
+//@ structural mapwriters partitionHubActor.slots: newSharedPartition, newSharedPartition$1, (*sharedPartition).registerSlot, (*partitionHubActor).Receive
+//@ structural mapwriters partitionHubActor.demand: newSharedPartition, newSharedPartition$1, (*sharedPartition).registerSlot, (*partitionHubActor).Receive
+//@ structural mapwriters partitionHubActor.slotSubIDs: newSharedPartition, newSharedPartition$1, (*sharedPartition).registerSlot, (*partitionHubActor).Receive
+//@ structural writers partitionHubActor.n: newSharedPartition, newSharedPartition$1, (*sharedPartition).registerSlot
+//@ structural writers partitionHubActor.seqNo: (*partitionHubActor).Receive
